@@ -131,7 +131,9 @@ def build(rng, names=None):
 
 def simulate(model, survey, grids, max_workers, file_dir, what):
     import emg3d
-    opts = dict(gridding='dict', gridding_opts=grids, max_workers=max_workers,
+    gr = {'gridding': 'same'} if grids is None else \
+        {'gridding': 'dict', 'gridding_opts': grids}
+    opts = dict(**gr, max_workers=max_workers,
                 verb=-1, receiver_interpolation='linear', tqdm_opts=False,
                 solver_opts={'plain': True, 'tol': 1e-7, 'tol_gradient': 1e-4,
                              'maxit': 60})
@@ -228,6 +230,33 @@ def suite_sims(ctx):
                     ctx.oblige('correspondence: file names of the file-based '
                                'mode == PMap.fname', 'correspondence', False,
                                f'{sorted(set(res["files"]) ^ exp)[:4]}')
+        # the computational grid IS the model grid (gridding 'same'): the
+        # hand-over through files must not change a bit either
+        try:
+            same0 = simulate(model, survey, None, 1, None, what)
+            for (w, fd) in [(2, None), (1, 'fd_same'), (3, 'fd_same_par')]:
+                fdir = os.path.join(CACHE, fd) if fd else None
+                res = simulate(model, survey, None, w, fdir, what)
+                for key in ['synthetic', 'misfit', 'gradient', 'jvec',
+                            'compute_again']:
+                    if not np.array_equal(np.asarray(res[key]),
+                                          np.asarray(same0[key]),
+                                          equal_nan=True):
+                        bad.append((w, fd, key, 'same'))
+                        ctx.violation(
+                            'result-depends-on-execution-setting',
+                            f'gridding="same": {key} with max_workers={w}'
+                            f'{", file based" if fd else ""} is not '
+                            'bit-identical to the sequential in-memory result',
+                            {'max_workers': w, 'file_based': bool(fd),
+                             'quantity': key, 'gridding': 'same'})
+                        break
+                ctx.count(key=('sim-same', w, fd))
+        except Exception as e:      # noqa
+            ctx.violation('simulation-raises',
+                          f'gridding="same": {type(e).__name__}: {e}',
+                          {'gridding': 'same'})
+            bad.append(('same', 'raised'))
         # repeat is a no-op
         if not np.array_equal(base['compute_again'], base['synthetic']):
             ctx.violation('repeat-changes-result', 'repeating compute() '
